@@ -776,7 +776,7 @@ class PDFDocument:
         try:
             pos = self.find_xref(parser)
             self.read_xref_from(parser, pos, self.xrefs)
-        except PDFNoValidXRef:
+        except (PDFNoValidXRef, PSEOF):
             if fallback:
                 parser.fallback = True
                 newxref = PDFXRefFallback()
